@@ -7,8 +7,8 @@ M64 = (1 << 64) - 1
 
 def plan(quick):
     if quick:
-        return {"lay": 1500, "scan": 260, "os": 0}
-    return {"lay": 40000, "scan": 6000, "os": 0}
+        return {"lay": 1500, "scan": 260, "os": 60}
+    return {"lay": 40000, "scan": 6000, "os": 2500}
 
 
 def generate(kind, rng):
@@ -254,14 +254,198 @@ def gen_scan(rng):
 
 
 # ---------------------------------------------------------------------------
-# os (filled in by the x86-64 Linux image synthesiser)
+# os: synthesised x86-64 Linux images (canonical: linear direct map, linear kernel text)
 # ---------------------------------------------------------------------------
+
+KTEXT_START = 0xffffffff80000000
+
+
+def ver(a, b, c):
+    return (a << 16) + (b << 8) + c
+
+
+def map_linear(pt, va0, pa0, size, rng, granules):
+    """Map [va0, va0+size) -> [pa0, ...) with the largest granule of `granules` that fits at each
+    step (levels 1/2/3 = 4K/2M/1G); returns False when something was in the way."""
+    done = 0
+    ok = True
+    while done < size:
+        va, pa = va0 + done, pa0 + done
+        for g in sorted(granules, reverse=True):
+            unit = 1 << pt.lo(g)
+            if va % unit == 0 and pa % unit == 0 and size - done >= unit:
+                break
+        else:
+            g, unit = 1, 0x1000
+        ok = pt.map(va, g, pa) and ok
+        done += unit
+    return ok
+
 
 def gen_os(rng):
-    return []
+    five = rng.random() < 0.3
+    fields = [12, 9, 9, 9, 9, 9] if five else [12, 9, 9, 9, 9]
+    # --- kernel version and where the direct map starts
+    vclass = rng.choice(["2.6.11", "2.6.27", "2.6.31", "3.x", "kaslr", "kaslr"]) if not five else "kaslr5"
+    if vclass == "2.6.11":
+        version, D, dend = ver(2, 6, rng.choice([11, 20, 26])), 0xffff810000000000, 0xffffc0ffffffffff
+    elif vclass == "2.6.27":
+        version, D, dend = ver(2, 6, rng.choice([27, 30])), 0xffff880000000000, 0xffffc0ffffffffff
+    elif vclass == "2.6.31":
+        version, D, dend = ver(2, 6, rng.choice([31, 39])), 0xffff880000000000, 0xffffc7ffffffffff
+    elif vclass == "3.x":
+        version, D, dend = rng.choice([ver(3, 0, 0), ver(3, 16, 7), ver(4, 4, 0), ver(4, 7, 9)]), 0xffff880000000000, 0xffffc7ffffffffff
+    elif vclass == "kaslr":
+        version = rng.choice([ver(4, 8, 0), ver(4, 12, 14), ver(4, 14, 0), ver(5, 3, 18), ver(6, 4, 0)])
+        D = 0xffff880000000000 + (rng.randint(0, 0x3000) << 30)           # 1G granularity
+        dend = 0xffffc7ffffffffff
+    else:
+        version = rng.choice([ver(4, 14, 0), ver(5, 10, 0), ver(6, 1, 0)])
+        D = 0xff11000000000000 + (rng.randint(0, 0x100000) << 30)
+        dend = 0xff90ffffffffffff
+    # --- physical memory and the kernel image
+    gran = rng.choice([[3, 2, 1], [3, 2], [2, 1], [2], [3, 2, 1]])
+    memsz = rng.choice([0x4000000, 0x8000000, 0x40000000, 0x80000000, 0x140000000, 0x240000000,
+                        rng.randint(0x40, 0x4000) << 21])
+    phys_base = rng.choice([0, 0, 0x1000000, 0x200000 * rng.randint(0, 16), 0x2000000])
+    kaslr_v = 0 if vclass in ("2.6.11", "2.6.27", "2.6.31", "3.x") or rng.random() < 0.3 else rng.randint(0, 200) << 21
+    textsz = rng.choice([8, 12, 20, 28]) << 20
+    stext = KTEXT_START + 0x1000000 + kaslr_v                       # _text = _stext here
+    if stext + textsz > 0xffffffffbfffffff:
+        stext = KTEXT_START + 0x1000000
+    text_pa = phys_base + (stext - KTEXT_START)
+    memsz = max(memsz, (text_pa + textsz + 0x400000 + 0x1fffff) & ~0x1fffff)
+    memsz = min(memsz, dend - D + 1)
+    if 3 not in gran:
+        memsz = min(memsz, max(0x80000000, (text_pa + textsz + 0x400000 + 0x1fffff) & ~0x1fffff))   # bound the number of 2M entries
+    # --- tables: the root lives inside the kernel image, the others right behind it
+    root_pa = text_pa + textsz - 0x200000 + 0x10000
+    pt = PT("x86_64", fields, rng, tas=1, base=root_pa, tgt=1)
+    pt.free = text_pa + textsz                                      # further tables: after the image, inside RAM
+    root_va = root_pa - phys_base + KTEXT_START
+    # kernel text: 2M pages (sometimes with a 4K tail)
+    map_linear(pt, stext, text_pa, textsz, rng, [2] if rng.random() < 0.8 else [2, 1])
+    # direct map, possibly with a hole
+    hole = None
+    if memsz > 0x10000000 and rng.random() < 0.35:
+        h0 = rng.randint(1, memsz // 0x200000 - 2) * 0x200000
+        h1 = min(memsz, h0 + rng.choice([0x200000, 0x1000000, 0x40000000]))
+        if not (h0 < text_pa + textsz + 0x800000 and h1 > text_pa - 0x200000):
+            hole = (h0, h1)
+    small = 1 in gran
+    if small:
+        # a 4K-mapped first 2M (as real kernels have around the low 1M)
+        map_linear(pt, D, 0, 0x200000, rng, [1])
+        lo = 0x200000
+    else:
+        lo = 0
+    if hole:
+        map_linear(pt, D + lo, lo, hole[0] - lo, rng, [g for g in gran if g > 1] or [2])
+        map_linear(pt, D + hole[1], hole[1], memsz - hole[1], rng, [g for g in gran if g > 1] or [2])
+    else:
+        map_linear(pt, D + lo, lo, memsz - lo, rng, [g for g in gran if g > 1] or [2])
+    # other, non-linear mappings: vmemmap / vmalloc / modules / fixmap
+    extras = []
+    if not five and rng.random() < 0.6:
+        v = 0xffffea0000000000 + (rng.randint(0, 64) << 21)
+        if pt.map(v, 2, 0x40000000 + (rng.randint(0, 100) << 21) if memsz > 0x50000000 else 0x600000):
+            extras.append(v)
+    if rng.random() < 0.5:
+        v = 0xffffffffa0000000 + (rng.randint(0, 16) << 12)
+        if pt.map(v, 1, (rng.randint(0x100, memsz // 0x1000 - 1) << 12)):
+            extras.append(v)
+    if not five and rng.random() < 0.4:
+        v = 0xffffc90000000000 + (rng.randint(0, 1000) << 12)
+        if pt.map(v, 1, (rng.randint(0x100, memsz // 0x1000 - 1) << 12)):
+            extras.append(v)
+    # --- what the library is told
+    toks = ["os=l"]
+    have_ver = rng.random() < 0.6
+    toks.append("ver=%x" % version if have_ver else "ver=-")
+    have_pb = rng.random() < 0.5
+    toks.append("pb=%x" % phys_base if have_pb else "pb=-")
+    rootmode = rng.choice(["sym", "sym", "sym4", "cr3", "opt-kv", "opt-phys", "none"] if rng.random() < 0.9 else ["none"])
+    root_tok = "root=-"
+    names = []
+    if rootmode == "sym":
+        names.append("S:init_top_pgt=%x" % root_va if version >= ver(4, 13, 0) or rng.random() < 0.3
+                     else "S:init_level4_pgt=%x" % root_va)
+    elif rootmode == "sym4":
+        names.append("S:init_level4_pgt=%x" % root_va)
+    elif rootmode == "cr3":
+        names.append("R:cr3=%x" % (root_pa | rng.choice([0, 0, 0x18, 0xfff])))
+    elif rootmode == "opt-kv":
+        root_tok = "root=2:%x" % root_va
+    elif rootmode == "opt-phys":
+        root_tok = "root=%d:%x" % (rng.choice([0, 1]), root_pa)
+    toks.append(root_tok)
+    # paging depth
+    vbmode = rng.choice(["cr4", "l5", "opt", "stext", "ver", "none"])
+    toks.append("vb=%x" % (57 if five else 48) if vbmode == "opt" else "vb=-")
+    if vbmode == "cr4":
+        names.append("R:cr4=%x" % ((0x1000 if five else 0) | 0x6f0))
+    if vbmode == "l5" or (five and vbmode in ("stext", "ver", "none")):
+        names.append("N:pgtable_l5_enabled=%x" % (1 if five else 0))
+    sym_stext = rng.random() < 0.6 or vbmode == "stext"
+    if five and vbmode not in ("cr4", "l5", "opt"):
+        sym_stext = sym_stext                                       # l5 number was added above
+    if sym_stext and not (five and vbmode not in ("cr4", "opt") and False):
+        names.append("S:_stext=%x" % stext)
+    elif rng.random() < 0.4:
+        names.append("S:_text=%x" % stext)
+    toks.append("xx=-" if rng.random() < 0.8 else "xx=0")
+    if rng.random() < 0.15:
+        names.append("N:sme_mask=%x" % (1 << rng.choice([47, 51, 63])))
+    caps = rng.choice([2, 2, 2, 1, 3, 4, 4, 6])
+    pob_va = stext + 0x800000 - 0x1000 + 8 * rng.randint(0, 100)
+    if caps & 4 and rng.random() < 0.7:
+        names.append("S:page_offset_base=%x" % pob_va)
+    toks += names
+    toks += ["caps=%x" % caps, "bo=%d" % rng.choice([1, 1, 2]), "rp=%x" % root_pa,
+             "nf=%d" % len(fields), "dm=%x" % D]
+    # --- memory
+    cells = pt.cells()                                              # physical (as 1)
+    out_cells = []
+    for c in cells:
+        a_s, rest = c.split(":", 1)
+        for sep in "=~":
+            if sep in rest:
+                addr, val = rest.split(sep)
+                addr = int(addr, 16)
+                if caps & 2:
+                    out_cells.append("1:%x%s%s" % (addr, sep, val))
+                if caps & 1:
+                    out_cells.append("0:%x%s%s" % (addr, sep, val))
+                if caps & 4:
+                    # kernel-virtual aliases: through the direct map and, for the image, the text mapping
+                    if addr < memsz and not (hole and hole[0] <= addr < hole[1]):
+                        out_cells.append("2:%x%s%s" % (D + addr, sep, val))
+                    if text_pa <= addr < text_pa + textsz:
+                        out_cells.append("2:%x%s%s" % (addr - phys_base + KTEXT_START, sep, val))
+    if caps & 4:
+        out_cells.append("2:%x=%x" % (pob_va, D))
+    # --- queries
+    qs = set()
+    edges = [D, D + memsz - 1, D + memsz, D - 0x1000, D + 0x1000, D + 0x200000 - 1, D + 0x200000,
+             stext, stext - 1, stext + textsz - 1, stext + textsz, stext + 0x1234, root_va, root_va + 0xfff,
+             KTEXT_START, 0xffffffff9fffffff, 0xffffffffa0000000, D + text_pa, D + root_pa]
+    if hole:
+        edges += [D + hole[0] - 1, D + hole[0], D + hole[1] - 1, D + hole[1]]
+    edges += extras
+    for e in edges:
+        qs.add(e & M64)
+    for _ in range(6):
+        qs.add((D + rng.randint(0, memsz - 1)) & M64)
+        qs.add(stext + rng.randint(0, textsz - 1))
+    ps = set([0, memsz - 1, memsz, phys_base, text_pa, text_pa + textsz - 1, root_pa, 0xfffffffffffff, 1 << 52])
+    for _ in range(4):
+        ps.add(rng.randint(0, memsz - 1))
+    if hole:
+        ps |= {hole[0], hole[1] - 1, hole[1]}
+    qt = ["Q:%x" % q for q in sorted(qs)] + ["P:%x" % p for p in sorted(ps)]
+    tag = "os/%s/%s/root=%s/vb=%s/caps=%x" % ("5l" if five else "4l", vclass, rootmode, vbmode, caps)
+    return [("os " + " ".join(toks + qt + out_cells), "", tag)]
 
-
-# ---------------------------------------------------------------------------
 
 def outcome_class(case, impl):
     k = case.split()[0]
@@ -271,6 +455,10 @@ def outcome_class(case, impl):
         return "statuses " + impl.split()[0] if impl else "?"
     if k == "scan":
         return "status " + impl.split()[0] if impl else "?"
+    if k == "os" and impl:
+        d = "direct" if " m2=L:" in impl else "nodirect"
+        t = "ktext-linear" if " m3=L:" in impl else "ktext-other"
+        return "status %s %s %s" % (impl.split()[0], d, t)
     return impl.split()[0] if impl else "?"
 
 
@@ -280,6 +468,8 @@ def nontrivial(case, impl):
         return "," in impl
     if k == "scan":
         return impl.startswith("0 ")
+    if k == "os":
+        return " m2=L:" in impl
     return True
 
 
